@@ -27,15 +27,20 @@ ASSUMPTIONS = ['the canonical state is the normalised nested store plus the sift
 VARIANTS = ('sift', 'ensemble_sift', 'complete_ensemble_sift', 'mask_sift')
 PATHS = ('max_imfs', 'sift_thresh', 'imf_opts/sd_thresh', 'envelope_opts/interp_method',
          'extrema_opts/mag_pad_opts/stat_length', 'extrema_opts/loc_pad_opts/reflect_type',
-         'newkey', 'imf_opts/newkey', 'extrema_opts/mag_pad_opts/newkey', 'a/b/c/d')
-VALUES = (3, 0.25, None, 'pchip', [1, 2], (0.1, 0.5, 0.1), 'ARRAY')
+         'newkey', 'imf_opts/newkey', 'extrema_opts/mag_pad_opts/newkey', 'a/b/c/d',
+         'extrema_opts/mag_pad_opts', 'imf_opts')
+VALUES = (3, 0.25, None, 'pchip', [1, 2], (0.1, 0.5, 0.1), 'ARRAY', 'DICT')
 VALID = {('max_imfs', 3), ('sift_thresh', 0.25), ('imf_opts/sd_thresh', 0.25), ('envelope_opts/interp_method', 'pchip'),
          ('extrema_opts/mag_pad_opts/stat_length', 3)}
-SMALL_VALUES = (3, None, (0.1, 0.5, 0.1))
+SMALL_VALUES = (3, None, (0.1, 0.5, 0.1), 'DICT')
 
 
 def value_of(v):
-    return np.array([.3, .1]) if v == 'ARRAY' else copy.deepcopy(v)
+    if isinstance(v, str) and v == 'ARRAY':
+        return np.array([.3, .1])
+    if isinstance(v, str) and v == 'DICT':
+        return {'mode': 'edge'}       # a dictionary written over an entry (which may itself be a dictionary)
+    return copy.deepcopy(v)
 
 
 def ops_full():
@@ -46,6 +51,11 @@ def ops_full():
         else:
             for v in VALUES:
                 ops.append(('set', p, v))
+            if '/' in p:
+                # the same edit through nested indexing on the real object: config['a']['b'] = v
+                for v in SMALL_VALUES:
+                    ops.append(('nset', p, v))
+                ops.append(('ndel', p, None))
         ops.append(('del', p, None))
     return ops
 
@@ -55,14 +65,33 @@ def ops_small():
     for p in PATHS:
         for v in (SMALL_VALUES if p != 'a/b/c/d' else (3,)):
             ops.append(('set', p, v))
+        if '/' in p and p != 'a/b/c/d':
+            ops.append(('nset', p, 3))
         ops.append(('del', p, None))
     return ops
 
 
+def real_apply(cfg, op):
+    kind, path, v = op
+    if kind == 'set':
+        cfg[path] = value_of(v)
+    elif kind == 'del':
+        del cfg[path]
+    else:
+        comps = path.split('/')
+        d = cfg
+        for c in comps[:-1]:
+            d = d[c]
+        if kind == 'nset':
+            d[comps[-1]] = value_of(v)
+        else:
+            del d[comps[-1]]
+
+
 def bounds(tier):
     if tier == 'quick':
-        return {'depth_full': 2, 'depth_small': 3, 'small_variants': ('mask_sift',), 'signals': 2}
-    return {'depth_full': 3, 'depth_small': 4, 'small_variants': ('mask_sift', 'sift'), 'signals': 4}
+        return {'depth_full': 2, 'full_variants': ('sift', 'mask_sift'), 'depth_small': 3, 'small_variants': ('ensemble_sift',), 'signals': 2}
+    return {'depth_full': 3, 'full_variants': VARIANTS, 'depth_small': 4, 'small_variants': ('mask_sift', 'sift'), 'signals': 4}
 
 
 def norm(v):
@@ -85,6 +114,14 @@ def canon(v):
     return v
 
 
+def excname(e):
+    """Indexing into something that is not a dictionary fails with TypeError / IndexError / ValueError depending on whether
+    the value is a scalar, a list or an array - and saving a config turns arrays and tuples into lists - so these three
+    are one class here; KeyError (missing entry) stays distinct."""
+    n = type(e).__name__
+    return 'NotIndexable' if n in ('TypeError', 'IndexError', 'ValueError') else n
+
+
 def model_apply(model, op):
     """Native nested indexing on a plain dict.  Returns exception class name or None."""
     kind, path, v = op
@@ -95,12 +132,12 @@ def model_apply(model, op):
         d = model
         for c in comps[:-1]:
             d = d[c]
-        if kind == 'set':
+        if kind in ('set', 'nset'):
             d[comps[-1]] = value_of(v)
         else:
             del d[comps[-1]]
     except Exception as e:
-        return type(e).__name__
+        return excname(e)
     return None
 
 
@@ -114,14 +151,14 @@ def model_get(model, path):
             d = d[c]
         return ('ok', norm(d))
     except Exception as e:
-        return ('exc', type(e).__name__)
+        return ('exc', excname(e))
 
 
 def real_get(cfg, path):
     try:
         return ('ok', norm(cfg[path]))
     except Exception as e:
-        return ('exc', type(e).__name__)
+        return ('exc', excname(e))
 
 
 _pristine = {}
@@ -177,10 +214,7 @@ def transition(root, hist):
     for op in hist[:-1]:
         model_apply(model, op)
         try:
-            if op[0] == 'set':
-                cfg[op[1]] = value_of(op[2])
-            else:
-                del cfg[op[1]]
+            real_apply(cfg, op)
         except Exception:
             pass
     op = hist[-1]
@@ -194,12 +228,9 @@ def transition(root, hist):
     mexc = model_apply(model, op)
     rexc = None
     try:
-        if op[0] == 'set':
-            cfg[op[1]] = value_of(op[2])
-        else:
-            del cfg[op[1]]
+        real_apply(cfg, op)
     except Exception as e:
-        rexc = type(e).__name__
+        rexc = excname(e)
     if mexc != rexc:
         viols.append(('keypath:%s:exception' % op[0], '%s: %s gave %r, nested indexing gives %r' % (d, fmt(op), rexc, mexc)))
     # observations: the whole mapping interface and every key path
@@ -267,7 +298,7 @@ def transition(root, hist):
 
 
 def fmt(op):
-    return '%s(%s%s)' % (op[0], op[1], '' if op[0] == 'del' else ', %r' % (op[2],))
+    return '%s(%s%s)' % (op[0], op[1], '' if op[0] in ('del', 'ndel') else ', %r' % (op[2],))
 
 
 def check_defaults(case):
@@ -314,14 +345,17 @@ def run(ctx):
     from ..engine import explore
     dcases = [('defaults', v, si, ctx.seed) for v in VARIANTS for si in range(b['signals'])]
     rep.merge(ctx.explore(lambda: dcases, check_defaults, timeout_s=TIMEOUT))
-    roots = [(v, ctx.seed) for v in VARIANTS]
+    roots = [(v, ctx.seed) for v in b['full_variants']]
+    r0 = history.bfs([(v, ctx.seed) for v in VARIANTS if v not in b['full_variants']], ops_full(), transition, 1, dedup=True,
+                     timeout_s=TIMEOUT, serial=ctx.serial)
+    rep.merge(r0)
     r1 = history.bfs(roots, ops_full(), transition, b['depth_full'], dedup=True, timeout_s=TIMEOUT, serial=ctx.serial)
     r2 = history.bfs([(v, ctx.seed) for v in b['small_variants']], ops_small(), transition, b['depth_small'], dedup=True,
                      timeout_s=TIMEOUT, serial=ctx.serial)
     for r in (r1, r2):
         rep.merge(r)
-    rep.evaluations = r1.evaluations + r2.evaluations + len(dcases)
-    ctx.coverage_extra['states'] = r1.extra['distinct_states'] + r2.extra['distinct_states']
+    rep.evaluations = r0.evaluations + r1.evaluations + r2.evaluations + len(dcases)
+    ctx.coverage_extra['states'] = r0.extra['distinct_states'] + r1.extra['distinct_states'] + r2.extra['distinct_states']
     ctx.coverage_extra['bfs_full'] = {'depth': r1.extra['max_depth'], 'per_depth': r1.extra['per_depth'], 'ops': len(ops_full())}
     ctx.coverage_extra['bfs_small'] = {'depth': r2.extra['max_depth'], 'per_depth': r2.extra['per_depth'], 'ops': len(ops_small())}
     d = os.path.join(OUT, 'tmp')
